@@ -54,6 +54,18 @@ pub fn strategy() -> BoxedStrategy<Req> {
         2 => scalar_canonical().prop_map(|a| req1("sc.neg", a.to_vec())),
         2 => vec(scalar_canonical(), 0..9).prop_map(|v| Req::new("sc.sum", v.iter().map(|x| x.to_vec()).collect())),
         2 => vec(scalar_canonical(), 0..9).prop_map(|v| Req::new("sc.product", v.iter().map(|x| x.to_vec()).collect())),
+        // long collections, and collections whose terms are all just below l (-1, -2, ..): an accumulator with
+        // deferred reduction overflows only there (seeded change C02e: 16 terms near l)
+        1 => vec(scalar_canonical(), 9..80).prop_map(|v| Req::new("sc.sum", v.iter().map(|x| x.to_vec()).collect())),
+        1 => vec(scalar_canonical(), 9..40).prop_map(|v| Req::new("sc.product", v.iter().map(|x| x.to_vec()).collect())),
+        2 => (1usize..80, 0u8..3, 1u64..1000, any::<bool>()).prop_map(|(n, kind, base, prod)| {
+            let v: Vec<Vec<u8>> = (0..n).map(|i| match kind {
+                0 => Sc::ONE.neg(),
+                1 => Sc::from_u64(base + i as u64).neg(),
+                _ => if i % 2 == 0 { Sc::from_u64(base).neg() } else { Sc::from_u64(base) },
+            }.to_bytes().to_vec()).collect();
+            Req::new(if prod { "sc.product" } else { "sc.sum" }, v)
+        }),
         3 => scalar_nonzero().prop_map(|a| req1("sc.invert", a.to_vec())),
         2 => vec(scalar_nonzero(), 0..=32).prop_map(|v| Req::new("sc.batch_invert", v.iter().map(|x| x.to_vec()).collect())),
         // duplicates / 1 / l-1 in a batch
